@@ -10,13 +10,15 @@ HasSrc(s, src) ==
       [] OTHER -> src \in {"env", "pre", "pini", "ini", "cmd"}
 Settings == {"threads", "scheduler", "bind", "stack", "inikey", "mask"}
 ValsOf(s) == IF s = "threads" THEN Vals \cup {"K"} ELSE Vals
-Cases == UNION {{[setting |-> s, env |-> e, pre |-> p, pini |-> q, ini |-> i, cmd |-> m] :
-            e \in ValsOf(s), p \in ValsOf(s), q \in Vals, i \in ValsOf(s), m \in ValsOf(s)} : s \in Settings}
+AppVals == {"-", "A", "B"}
+Cases == UNION {{[setting |-> s, env |-> e, pre |-> p, pini |-> q, ini |-> i, cmd |-> m, app |-> d] :
+            e \in ValsOf(s), p \in ValsOf(s), q \in Vals, i \in ValsOf(s), m \in ValsOf(s), d \in AppVals} : s \in Settings}
 Valid(x) == /\ (x.env # "-" => HasSrc(x.setting, "env"))
             /\ (x.pre # "-" => (HasSrc(x.setting, "pre") \/ HasSrc(x.setting, "preini")))
             /\ (x.pini # "-" => HasSrc(x.setting, "pini"))
             /\ (x.ini # "-" => HasSrc(x.setting, "ini"))
             /\ (x.cmd # "-" => HasSrc(x.setting, "cmd"))
+            /\ (x.app # "-" => x.setting # "mask")                 \* (the process mask has no ini key)
             /\ (x.setting = "inikey" => "X" \notin {x.env, x.pre, x.pini, x.ini, x.cmd})   \* any string is a valid entry
 Init == c \in {x \in Cases : Valid(x)}
 Next == UNCHANGED c
